@@ -514,7 +514,7 @@ def origins(fn, operand, extra_identity=(), through_clone=False, through_casts=F
         _steps = []
     if operand.get('o') == 'const' or 'l' not in operand:
         return [Origin('const', s=operand.get('s') or operand.get('fn'), v=operand.get('v'), fn=operand.get('fn'),
-                       steps=list(_steps))]
+                       static=operand.get('static'), suffix=list(operand.get('p', [])) + list(_suffix or []), steps=list(_steps))]
     local = operand['l']
     suffix = list(operand.get('p', [])) + list(_suffix or [])
     key = (local, tuple(suffix))
